@@ -309,6 +309,8 @@ class Woven:
     def __init__(self):
         self.pieces = []
         self.notes = []  # extraction notes for the evidence (rules fired, substitutions, dropped attrs)
+        self.drift_soft = []  # a front-end workaround (subst / rule) found nothing to rewrite: the text is verified as it stands
+        self.drift_hard = []  # a proof hint (loop invariant, proof block) could not be placed: a failure of this function is no verdict
         self.hash_src = ""
 
     def add(self, text, origin):
@@ -335,7 +337,7 @@ def extract_verbatim(src, path, relfile, keep_pub=False, subst=None):
         dropped.append("pub (fields)")
     for (x, y, cnt) in (subst or []):
         if body2.count(x) != cnt:
-            raise RsxError("%s: subst `%s` expected %d occurrence(s), found %d in %s" % (relfile, x, cnt, body2.count(x), " / ".join(path)))
+            w.drift_soft.append("subst `%s` expected %d occurrence(s), found %d in %s" % (x, cnt, body2.count(x), " / ".join(path)))
         body2 = body2.replace(x, y)
         w.notes.append("subst `%s` => `%s`" % (x, y))
     line = src.line_of(src.toks[s][1])
@@ -512,7 +514,7 @@ def weave_fn(src, path, relfile, spec):
         w.notes.append("renamed to " + spec["rename"])
     for (x, y, cnt) in spec.get("sig_subst", []):
         if sig.count(x) != cnt:
-            raise RsxError("%s: sig_subst `%s` expected %d, found %d" % (relfile, x, cnt, sig.count(x)))
+            w.drift_soft.append("sig_subst `%s` expected %d, found %d" % (x, cnt, sig.count(x)))
         sig = sig.replace(x, y)
         w.notes.append("sig_subst `%s` => `%s`" % (x, y))
 
@@ -520,11 +522,11 @@ def weave_fn(src, path, relfile, spec):
     for r in spec.get("rules", []):
         body, n = RULES[r](body)
         if n == 0:
-            raise RsxError("%s: rule %s did not match in %s" % (relfile, r, path[-1]))
+            w.drift_soft.append("rule %s did not match in %s" % (r, path[-1]))
         w.notes.append("%s x%d" % (r, n))
     for (x, y, cnt) in spec.get("subst", []):
         if body.count(x) != cnt:
-            raise RsxError("%s: subst `%s` expected %d occurrence(s), found %d in %s" % (relfile, x, cnt, body.count(x), path[-1]))
+            w.drift_soft.append("subst `%s` expected %d occurrence(s), found %d in %s" % (x, cnt, body.count(x), path[-1]))
         body = body.replace(x, y)
         w.notes.append("subst `%s` => `%s`" % (x, y))
 
@@ -556,24 +558,30 @@ def weave_fn(src, path, relfile, spec):
                     raise RsxError("%s: loop without block in %s" % (relfile, path[-1]))
                 loop_pos.append(pos)
         want = spec.get("loop_count")
+        loops_ok = True
         if want is not None and want != len(loop_pos):
-            raise RsxError("%s: %s has %d loops, overlay expects %d (code changed shape)" % (relfile, path[-1], len(loop_pos), want))
-        for n, (text, oline) in spec["loops"].items():
+            w.drift_hard.append("%s has %d loops, overlay expects %d (code changed shape): loop invariants not placed" % (path[-1], len(loop_pos), want))
+            loops_ok = False
+        for n, (text, oline) in (spec["loops"].items() if loops_ok else []):
             if n < 1 or n > len(loop_pos):
-                raise RsxError("%s: %s has %d loops, overlay annotates loop %d" % (relfile, path[-1], len(loop_pos), n))
+                w.drift_hard.append("%s has %d loops, overlay annotates loop %d: invariant not placed" % (path[-1], len(loop_pos), n))
+                continue
             inserts.append((loop_pos[n - 1], "\n" + text.rstrip("\n") + "\n", oline, "loop"))
     for kind in ("before", "after"):
         for (snippet, text, ordinal, oline) in spec.get(kind, []):
             occ = [m.start() for m in re.finditer(re.escape(snippet), body)]
             if not occ:
-                raise RsxError("%s: anchor `%s` lost in %s" % (relfile, snippet, path[-1]))
+                w.drift_hard.append("anchor `%s` lost in %s: proof block not placed" % (snippet, path[-1]))
+                continue
             if ordinal is None:
                 if len(occ) != 1:
-                    raise RsxError("%s: anchor `%s` ambiguous (%d) in %s" % (relfile, snippet, len(occ), path[-1]))
+                    w.drift_hard.append("anchor `%s` ambiguous (%d) in %s: proof block not placed" % (snippet, len(occ), path[-1]))
+                    continue
                 at = occ[0]
             else:
                 if ordinal > len(occ):
-                    raise RsxError("%s: anchor `%s`#%d lost in %s" % (relfile, snippet, ordinal, path[-1]))
+                    w.drift_hard.append("anchor `%s`#%d lost in %s: proof block not placed" % (snippet, ordinal, path[-1]))
+                    continue
                 at = occ[ordinal - 1]
             if kind == "before":
                 ls = body.rfind("\n", 0, at) + 1
@@ -741,11 +749,11 @@ def weave_lifted(src, path, relfile, spec, reader_src):
     for r in spec.get("rules", []):
         sub_body, n = RULES[r](sub_body)
         if n == 0:
-            raise RsxError("%s: rule %s did not match in %s" % (relfile, r, name))
+            w.drift_soft.append("rule %s did not match in %s" % (r, name))
         w.notes.append("%s x%d" % (r, n))
     for (x, y, cnt) in spec.get("subst", []):
         if sub_body.count(x) != cnt:
-            raise RsxError("%s: subst `%s` expected %d occurrence(s), found %d in %s" % (relfile, x, cnt, sub_body.count(x), name))
+            w.drift_soft.append("subst `%s` expected %d occurrence(s), found %d in %s" % (x, cnt, sub_body.count(x), name))
         sub_body = sub_body.replace(x, y)
         w.notes.append("subst `%s` => `%s`" % (x, y))
     inserts = []
@@ -771,24 +779,30 @@ def weave_lifted(src, path, relfile, spec, reader_src):
                     j += 1
                 loop_pos.append(pos)
         want = spec.get("loop_count")
+        loops_ok = True
         if want is not None and want != len(loop_pos):
-            raise RsxError("%s: %s has %d loops, overlay expects %d" % (relfile, name, len(loop_pos), want))
-        for n, (text, oline) in spec["loops"].items():
+            w.drift_hard.append("%s has %d loops, overlay expects %d (code changed shape): loop invariants not placed" % (name, len(loop_pos), want))
+            loops_ok = False
+        for n, (text, oline) in (spec["loops"].items() if loops_ok else []):
             if n < 1 or n > len(loop_pos):
-                raise RsxError("%s: %s has %d loops, overlay annotates loop %d" % (relfile, name, len(loop_pos), n))
+                w.drift_hard.append("%s has %d loops, overlay annotates loop %d: invariant not placed" % (name, len(loop_pos), n))
+                continue
             inserts.append((loop_pos[n - 1], "\n" + text.rstrip("\n") + "\n", oline))
     for kind2 in ("before", "after"):
         for (snippet, text, ordinal, oline) in spec.get(kind2, []):
             occ = [mm.start() for mm in re.finditer(re.escape(snippet), sub_body)]
             if not occ:
-                raise RsxError("%s: anchor `%s` lost in %s" % (relfile, snippet, name))
+                w.drift_hard.append("anchor `%s` lost in %s: proof block not placed" % (snippet, name))
+                continue
             if ordinal is None:
                 if len(occ) != 1:
-                    raise RsxError("%s: anchor `%s` ambiguous (%d) in %s" % (relfile, snippet, len(occ), name))
+                    w.drift_hard.append("anchor `%s` ambiguous (%d) in %s: proof block not placed" % (snippet, len(occ), name))
+                    continue
                 at = occ[0]
             else:
                 if ordinal > len(occ):
-                    raise RsxError("%s: anchor `%s`#%d lost in %s" % (relfile, snippet, ordinal, name))
+                    w.drift_hard.append("anchor `%s`#%d lost in %s: proof block not placed" % (snippet, ordinal, name))
+                    continue
                 at = occ[ordinal - 1]
             if kind2 == "before":
                 ls = sub_body.rfind("\n", 0, at) + 1
